@@ -184,7 +184,7 @@ def harness(binary, stream, timeout=3600, **kw):
     args = [binary, stream] + ["%s=%s" % (k, v) for k, v in kw.items()]
     p = subprocess.run(args, capture_output=True, text=True, timeout=timeout, cwd=REPO, env=GOENV)
     if p.returncode != 0:
-        raise RuntimeError("harness %s failed rc=%s: %s" % (stream, p.returncode, p.stderr[-4000:]))
+        raise RuntimeError("harness %s failed rc=%s: %s ... %s" % (stream, p.returncode, p.stderr[:1500], p.stderr[-2500:]))
     rows = []
     for l in p.stdout.split("\n"):
         if l:
@@ -310,7 +310,18 @@ class Check:
         any oracle FAIL in this run is the concrete failing input; otherwise
         no-failing-input-found."""
         if rows is None:
-            rows = harness(binary, stream, **kw)
+            try:
+                rows = harness(binary, stream, **kw)
+            except (RuntimeError, subprocess.TimeoutExpired) as e:
+                # the implementation crashed fatally (stack overflow, runtime throw) or hung inside
+                # this stream: the stream arguments reproduce it deterministically
+                msg = str(e)
+                m = re.search(r"(fatal error: [^\n]*|panic: [^\n]*|timed out[^\n]*)", msg)
+                self.violation({"kind": "stream-crashed", "stream": stream, "args": kw,
+                                "how_to_replay": "cd %s && %s %s %s" % (REPO, binary, stream, " ".join("%s=%s" % i for i in kw.items())),
+                                "error": (m.group(1) if m else msg[:300]), "detail": msg[-1500:]})
+                self.cov["streams"].setdefault(stream, {"evaluations": 0})["crashed"] = True
+                return [], [], []
         reqs = [r[0] for r in rows if r[0] != "-"]
         replies = drv(reqs) if reqs else []
         it = iter(replies)
